@@ -47,7 +47,7 @@ Record toracles := {
 Definition orc (o : toracles) (intls : bool) : oracles :=
   {| o_helo := o_helo (o_clear o); o_addr := o_addr (o_clear o); o_ext := o_ext (o_clear o);
      o_relay := o_relay (o_clear o); o_mx := o_mx (o_clear o); o_qq := o_qq (o_clear o);
-     o_databytes := o_databytes (o_clear o);
+     o_databytes := o_databytes (o_clear o); o_liphost := o_liphost (o_clear o);
      o_trace := if intls then o_trace_tls o else o_trace (o_clear o) |}.
 
 (** the client's script *)
@@ -197,7 +197,7 @@ Definition tstep (f : nat) (o : toracles) (closes : bool) (t : tstate) : list te
           let '(evs, h, t1) := tdispatch f o closes t s l i row in
           match h with
           | HEXIT => (evs, None)
-          | H0 => (evs, Some t1)
+          | H0 => (evs ++ [TE (tls t1) (Note NBadReset)], Some t1)        (* badcmds = 0, as Session.step *)
           | _ => let '(ev, so) := on_error (ss t1) h in (evs ++ tag (tls t1) ev, option_map (mk t1) so)
           end
       | None => plain
